@@ -460,17 +460,18 @@ structure Reg where
 def Reg.args (r : Reg) (s : Slot) (ev : Str) (args : List J) : List J :=
   if ev = sDisconnect && r.legacy s then args.dropLast else args
 
-/-- `_get_event_handler`, then `_get_namespace_handler` + `trigger_event` -/
+/-- `_get_event_handler` (an event literally named `'*'` is never an exact match, /repo 6dcbd32),
+    then `_get_namespace_handler` + `trigger_event` -/
 def Reg.resolve (r : Reg) (n : Ns) (ev : Str) (args : List J) : Option (Slot × List J) :=
   let res := reserved.contains ev
   let viaNs : Option (Slot × List J) :=
-    if r.fn n ev then some (⟨false, n, ev⟩, args)
+    if ev ≠ star && r.fn n ev then some (⟨false, n, ev⟩, args)
     else if !res && r.fn n star then some (⟨false, n, star⟩, .str ev :: args)
     else none
   let viaFn : Option (Slot × List J) := match viaNs with
     | some h => some h
     | none =>
-      if r.fn star ev then some (⟨false, star, ev⟩, .str n :: args)
+      if ev ≠ star && r.fn star ev then some (⟨false, star, ev⟩, .str n :: args)
       else if !res && r.fn star star then some (⟨false, star, star⟩, .str ev :: .str n :: args)
       else none
   match viaFn with
